@@ -52,6 +52,16 @@ CHECKS = {
         "note": TRUST + " As C02.",
         "design": "DESIGN.md sections 4 and 5 C03",
     },
+    "C04": {
+        "text": "Coq, over the abstract device: from any disk on which recovery selects an active journal, every crash image of the replay's marker writes and of its final journal clear recovers to the same seen cells as the first recovery, the completed repair too (idempotent, restartable at any point, nested), and the repair writes only cells that are markers in the recovered view (touches no live record); post-scan retirement of losers is an admissible transaction, so by crash_atomic a crash inside it changes no key. Tie: second-level crash images cut inside the real recovery's own traced writes must reopen (real code and model) to the contents of the first recovery.",
+        "note": TRUST + " Finding F1 (a retirement call with more than 1024 coalesced extents can resurrect an older generation) is outside what this engine generates; see DESIGN section 8.",
+        "design": "DESIGN.md section 5 C04",
+    },
+    "C05": {
+        "text": "Coq: an ownership ledger over the proven allocator (C06) keeps, along every sequence of acquisitions and give-backs, the exact partition free xor owned-by-exactly-one-extent of the data area; give-backs of owned extents are always accepted (no leak); with nothing owned the manager is exactly the fresh one. Tie: at every quiescent point of real workloads an oracle checks disjointness, complement, usage/record counters and persisted counters on the live store, the byte-level recovery model must rebuild the same state (incl. free-space statistics) from the file, and an emptied device must be a single free run that accepts a fresh device's fill.",
+        "note": TRUST + " The ledger abstracts the write path's reservation states into 'owned'; the link from the write path to the ledger is by the quiescent-point oracle, not proved.",
+        "design": "DESIGN.md section 5 C05",
+    },
     "C10": {
         "text": "Codec theorems in Coq over a byte-level model written from the documented layout: little-endian round trips, CRC-32C chaining and table=bitwise definition (finite check lifted), parse.serialize round trip for v1 and v2/v3 record heads (whole extent and head block), value offset, token range/non-zero/idempotent self-verifying stamp, retirement-marker round trip and marker/record/zero disjointness. Tie on every run: (i) every pure format function vs the Coq codec through hook H3, (ii) whole files after flush() decoded by the model as an independent reader must equal the live contents with clear journal and exact counters, (iii) a golden corpus of v1/v2/v3 files from the pinned release must be decoded by the model to their manifests, be read back by the working tree, and keep their format when written to.",
         "note": TRUST + " Not proved: the whole-file bridge (decode of an encoded abstract disk) -- it is checked by execution (ii, iii).",
